@@ -114,7 +114,7 @@ def cases(tier, seed, shard, nshards):
                     yield {"k": "operand", "d": d, "outer": e["label"], "slot": slot, "label": lab, "mode": "param" if (k // nshards) % 3 == 0 else "inline"}
     for d in DIALECT_CLASSES:
         for src in ("table", "subquery", "setop", "table-join", "subquery-join", "temporal", "temporal-join", "temporal-portion", "temporal-aliased-after",
-                    "temporal-portion-update"):
+                    "temporal-portion-update", "setop-aliased-branches", "setop-aliased-branches-join"):
             k += 1
             if k % nshards == shard:
                 yield {"k": "source", "d": d, "src": src}
@@ -393,6 +393,9 @@ def run_source(case, mon):
         elif src.startswith("subquery"):
             s = Q.from_(T("inner")).select("id", "a")
             s = s.as_(AL if alias else "plain_al")
+        elif src.startswith("setop-aliased-branches"):
+            s = Q.from_(T("inner")).select("id").as_("lft_br").union(Q.from_(T("inner2")).select("id").as_("rgt_br"))
+            s = s.as_(AL if alias else "plain_al")
         else:
             s = Q.from_(T("inner")).select("id").union(Q.from_(T("inner2")).select("id"))
             s = s.as_(AL if alias else "plain_al")
@@ -408,6 +411,9 @@ def run_source(case, mon):
     # exactly one defining occurrence: the one directly after the source (a table name or a closing parenthesis)
     defining = [i for i in occ if i > 0 and (toks[i - 1].text == ")" or (toks[i - 1].kind == "IDENT" and toks[i - 1].value in ("src",)) or
                                             (toks[i - 1].kind == "WORD" and toks[i - 1].value == "AS"))]
+    if any(t_.kind == "IDENT" and t_.value in ("lft_br", "rgt_br") for t_ in toks):
+        mon.violation("operand-alias-printed:%s:%s" % (src, fam), "an operand of a set operation prints its own alias inside the set operation: %r" % sql[:240])
+        return
     if src.startswith("temporal"):
         # the source is the table *with* its FOR clause: the alias follows the clause, and the item ends after the alias
         defining = [i for i in occ if i + 1 >= len(toks) or (toks[i + 1].kind == "WORD" and toks[i + 1].value in ("JOIN", "WHERE", "ON", "SET", "INNER", "LEFT"))
